@@ -164,7 +164,8 @@ func (ca *CertificateAuthority) Finalize(ctx context.Context, m styp.Certificate
 		manifest.PrimarySigningKeyVersionName = *mut.primarySigningVersion
 	}
 	var names []string
-	for keyVersionName, cert := range mut.certs {
+	for _, keyVersionName := range uploadOrder(mut.certs) {
+		cert := mut.certs[keyVersionName]
 		name, err := ca.upload(ctx, manifest, keyVersionName, cert)
 		if err != nil {
 			return fmt.Errorf("could not upload certificate for key %q: %w", keyVersionName, err)
